@@ -42,5 +42,13 @@ GNext == \/ /\ Len(hist) < Depth - 1
             /\ hist' = Append(hist, [op |-> [op |-> "End", d |-> "", t |-> "", s |-> "", children |-> <<>>],
                                      m |-> ListJ(M), c |-> SeqJ(C)])
 GSpec == GInit /\ [][GNext]_gvars
+
+\* Transition coverage: with the view <<M, C, panic>> TLC visits every distinct index state of the universe once (breadth
+\* first, so hist is a shortest history that reaches it) and generates every operation from it; EmitT prints the history of
+\* every transition, closed by an End step: one implementation test per transition of the closure.
+TNext == Next /\ hist' = Append(hist, [op |-> OpJ(last'), m |-> ListJ(M'), c |-> SeqJ(C')])
+TSpec == GInit /\ [][TNext]_gvars
+EndStep == [op |-> [op |-> "End", d |-> "", t |-> "", s |-> "", children |-> <<>>], m |-> ListJ(M'), c |-> SeqJ(C')]
+EmitT == PrintT(<<"PROG", ToJson(Append(hist', EndStep))>>)
 Emit == Len(hist) = Depth => PrintT(<<"PROG", ToJson(hist)>>)
 =============================================================================
